@@ -196,7 +196,7 @@ def run_ops(ctx: _Ctx, ops: list) -> list:
                 th.join()
                 if "exc" in box:
                     raise box["exc"]
-                o["parts"] = [{"code": box["code"], "meta": _meta_of(t)}]
+                o["parts"] = [{"code": box["code"], "meta": _meta_of(t), "meta_again": _meta_of(t)}]
             elif kind == "fresh":
                 params = [
                     Parameter("pkt", get_value_type_by_c_type("HexPkt")),
@@ -213,7 +213,7 @@ def run_ops(ctx: _Ctx, ops: list) -> list:
                 )
                 o["fmt"] = op.get("fmt", c.code_format.name)
                 code = t.transform(ctx.tree(op["code"]))
-                o["parts"] = [{"code": code, "meta": _meta_of(t)}]
+                o["parts"] = [{"code": code, "meta": _meta_of(t), "meta_again": _meta_of(t)}]
             elif kind == "fresh2":
                 # two ad-hoc transformers alive at the same time, used alternately; attributes are read at the end
                 def mk():
@@ -233,7 +233,8 @@ def run_ops(ctx: _Ctx, ops: list) -> list:
                 o["fmt"] = op.get("fmt", c.code_format.name)
                 code1 = t1.transform(ctx.tree(op["codes"][0]))
                 code2 = t2.transform(ctx.tree(op["codes"][1]))
-                o["parts"] = [{"code": code1, "meta": _meta_of(t1)}, {"code": code2, "meta": _meta_of(t2)}]
+                o["parts"] = [{"code": code1, "meta": _meta_of(t1), "meta_again": _meta_of(t1)},
+                              {"code": code2, "meta": _meta_of(t2), "meta_again": _meta_of(t2)}]
             elif kind == "add_sub":
                 c.add_sub_routine(op["name"], op["ret"], list(op["params"]), op["body"])
                 o["def"] = c.sub_routines[op["name"]].il_init(SubRoutineInitType.DEF)
